@@ -232,7 +232,7 @@ ARENA = {
     'C01': dict(
         x=['block-outside-owned-memory', 'block-misaligned', 'live-blocks-overlap', 'block-smaller-than-requested', 'panic'],
         mism=['result-block', 'result-kind', 'stats'],
-        note='invariant preservation proved for EVERY modelled operation under its contract and lifted to all histories (ArenaInv2.run_inv); partial only in that the model itself is tied to the code by correspondence'),
+        note='invariant preservation proved for EVERY modelled operation under its contract and lifted to all histories (ArenaInv2.run_inv), also to histories in which the owners divide live blocks (ArenaSplit.xrun_inv: split-off parts are separate live blocks; the harness splits blocks and then deallocates / grows / shrinks the parts); partial only in that the model itself is tied to the code by correspondence'),
     'C02': dict(
         x=['block-contents-changed', 'grow-lost-contents', 'shrink-lost-contents', 'zeroed-allocation-not-zero',
            'grow-zeroed-tail-not-zero', 'MODELUB', 'panic'],
@@ -271,7 +271,8 @@ ARENA = {
            'block-contents-changed', 'live-blocks-overlap', 'grow-lost-contents', 'shrink-lost-contents', 'panic'],
         search_x=True,
         mism=['result-block', 'stats'],
-        note='opt-out / non-last / same-address / in-place-grow theorems proved over the model, and the monotonicity clause: no operation other than a reclaim of the newest block, a shrink, a scope exit or a reset lets allocated() go down (ArenaAlloc.growing_step_never_decreases_allocated; alloc_try_with Err restores the count exactly, see C03); the model is tied to the code by correspondence'),
+        colls_x=['wrappers:'],
+        note='opt-out / non-last / same-address / in-place-grow theorems proved over the model (now also: a shrink through WithoutShrink or with SHRINKS off never lowers the allocated byte count, shrinking a block that is not the newest reclaims nothing), collections whose allocator is a WithoutShrink / WithoutDealloc wrapper are driven with std Vec in lock-step (wrappers probe of colls), and the monotonicity clause: no operation other than a reclaim of the newest block, a shrink, a scope exit or a reset lets allocated() go down (ArenaAlloc.growing_step_never_decreases_allocated; alloc_try_with Err restores the count exactly, see C03); the model is tied to the code by correspondence'),
 }
 
 
@@ -508,7 +509,7 @@ def check_arena(ctx):
             ctx.cov.update({
                 'evaluations': S['steps'],
                 'distinct_nontrivial': S['nontrivial_steps'],
-                'rule': 'online-generated operation histories (allocate/zeroed/typed sized+slice, deallocate, grow(_zeroed), shrink, through WithoutDealloc/WithoutShrink nestings, checkpoint/reset_to, nested scopes incl. unwinding, reset, reset_to_start, reserve, injected base-allocator refusals, drop) over a 40-entry settings x base-allocator-shape matrix (both directions, MIN_ALIGN 1..16, guaranteed-allocated, deallocates, shrinks, min chunk size, zero-sized/8-byte/align-32/align-64 allocator values, 4 over-granting policies, adjacent chunk placement); every step replayed on the extracted Coq model with exact comparison of addresses, chunk positions, all statistics, base-allocator events and block contents; debug and release builds. evaluations = steps; distinct_nontrivial = steps that requested/released a chunk, moved a block or failed (counted by the driver)',
+                'rule': 'online-generated operation histories (allocate/zeroed/typed sized+slice, deallocate, grow(_zeroed), shrink, through WithoutDealloc/WithoutShrink nestings, splitting a live block in two (about 3% of the operations; the parts are then deallocated / grown / shrunk on their own), checkpoint/reset_to, nested scopes incl. unwinding, reset, reset_to_start, reserve, injected base-allocator refusals, drop) over a 40-entry settings x base-allocator-shape matrix (both directions, MIN_ALIGN 1..16, guaranteed-allocated, deallocates, shrinks, min chunk size, zero-sized/8-byte/align-32/align-64 allocator values, 4 over-granting policies, adjacent chunk placement); every step replayed on the extracted Coq model with exact comparison of addresses, chunk positions, all statistics, base-allocator events and block contents; debug and release builds. evaluations = steps; distinct_nontrivial = steps that requested/released a chunk, moved a block or failed (counted by the driver)',
                 'samples': res['samples'],
                 'traces_validated_against_impl': S['steps'],
                 'input_distribution': {'runs': S['runs'], 'configs': S['configs'], 'ops': S['ops'], 'paths': S['paths']},
